@@ -7,6 +7,10 @@ instance.
 case = {"cls": classdesc, "kw": instance tree, "camel": bool, "strict": bool,
         "explicit": None | wire mapper dict, "doc2": bool,
         "pre": [call]}   -- history: calls made BEFORE the main call on the same class objects, in order
+optional: "entry": "function" (deserialize through deserialize_structure(..., keep_undefined=False) instead
+of Deserializer(...).deserialize(doc)); a level may carry "addl": "new" | "old" (the class sets
+_additional_properties / _additionalProperties = False; deserialization of such trees is judged by the
+oracle only, undefined-key handling is not in the Lean model)
 call = {"target": name of the top class or of a nested class, "kw", "camel", "strict", "explicit", "doc2"}
 (the process-wide cache aggregated_mapper_by_class is keyed by (class, override, camel flag): every call
  of a history is compared with the model, which threads the same cache)
@@ -18,7 +22,7 @@ instance tree = {field: int | tree | [tree]}  (absent optional fields are missin
 """
 import json
 
-from typedpy import Structure, Integer, Array, Set, Serializer, Deserializer, mappers, serialize
+from typedpy import Structure, Integer, Array, Set, Serializer, Deserializer, mappers, serialize, deserialize_structure
 from typedpy.structures import StructMeta
 from typedpy.serialization.mappers import DoNotSerialize
 
@@ -226,6 +230,33 @@ def history_cases(rng, n):
     return out
 
 
+def all_cds(cd):
+    return [cd] + nested_cds(cd)
+
+
+def closed_cases(rng, n):
+    """stream: trees in which some classes forbid additional properties — on the class itself, or
+    inherited from a base level — deserialized through Deserializer with the default keep_undefined"""
+    out = []
+    for _ in range(n):
+        cd = gen_class(rng, 0, 3, rng.choice([0, 1, 1, 2]))
+        cds = all_cds(cd)
+        marked = False
+        for c in cds:
+            if rng.random() < (0.6 if c is cd else 0.35):
+                li = rng.randrange(len(c["levels"]))
+                c["levels"][li]["addl"] = rng.choice(["new", "old"])
+                marked = True
+        if not marked:
+            cd["levels"][0]["addl"] = "new"
+        for _ in range(2):
+            out.append({"cls": cd, "kw": gen_instance(rng, cd, rng.choice([0.2, 0.6])),
+                        "camel": rng.random() < 0.3, "strict": rng.random() < 0.3,
+                        "explicit": gen_explicit(rng, cd) if rng.random() < 0.15 else None,
+                        "doc2": rng.random() < 0.3})
+    return out
+
+
 def gen_cases(rng, tier, n):
     cases = []
     for i in range(n):
@@ -239,8 +270,10 @@ def gen_cases(rng, tier, n):
                         "doc2": rng.random() < 0.5}
                 if rng.random() < 0.4:
                     case["pre"] = gen_pre(rng, cd, case)
+                if rng.random() < 0.15:
+                    case["entry"] = "function"
                 cases.append(case)
-    return cases + history_cases(rng, max(20, n // 25)) + fixed_cases()
+    return cases + history_cases(rng, max(20, n // 25)) + closed_cases(rng, max(40, n // 8)) + fixed_cases()
 
 
 def _flat(name, fields, mapper, opt=()):
@@ -311,6 +344,8 @@ def build_class(cd, registry):
                 sub = build_class(f["cls"], registry)
                 ns[f["n"]] = sub if f["kind"] == "one" else (Array[sub] if f["kind"] == "arr" else Set[sub])
         ns["_required"] = [f["n"] for f in lv["fields"] if not f["opt"]]
+        if lv.get("addl"):
+            ns["_additional_properties" if lv["addl"] == "new" else "_additionalProperties"] = False
         if lv["mapper"] is not None:
             ns["_serialization_mapper"] = to_py_attr(lv["mapper"])
         cls = StructMeta(f"{cd['name']}_{li}", (base,), ns)
@@ -364,6 +399,30 @@ def dump_inst(x, cd, canonical):
             raise RuntimeError(f"unexpected attribute {k}")
         pairs.append([k, val(by_name[k], v)])
     return {"o": pairs}
+
+
+def closed(cd):
+    """some class of the tree (at some inheritance level) forbids additional properties"""
+    return any(lv.get("addl") for lv in cd["levels"]) or any(
+        closed(f["cls"]) for f in all_fields(cd) if f["kind"] != "int")
+
+
+def find_extras(x, cd, path=""):
+    """attributes of the instance tree that are not declared fields (undefined keys kept)"""
+    by_name = {f["n"]: f for f in all_fields(cd)}
+    out = []
+    for k, v in x.__dict__.items():
+        if k in INTERNAL:
+            continue
+        if k not in by_name:
+            out.append(path + k)
+            continue
+        f = by_name[k]
+        if v is None or f["kind"] == "int":
+            continue
+        for i, e in enumerate([v] if f["kind"] == "one" else list(v)):
+            out += find_extras(e, f["cls"], f"{path}{k}.")
+    return out
 
 
 def doc_to_wire(d):
@@ -496,21 +555,32 @@ def run_call(cd, registry, case):
         except Exception as e:
             out["ser_err"] = err_name(e)
             out["ser_msg"] = str(e)[:300]
-    if des_w is not None and doc is not None:
-        out["deser"] = _deser(des_w, doc, cd, x)
-    if des_w is not None and case.get("doc2"):
+    if case.get("entry") == "function" and des_w is not None:
+        fkw = {"use_strict_mapping": strict, "camel_case_convert": camel, "keep_undefined": False}
+        if explicit is not None:
+            fkw["mapper"] = explicit
+        run = lambda d: deserialize_structure(cls, d, **fkw)
+    else:
+        run = (lambda d: des_w.deserialize(d)) if des_w is not None else None
+    if run is not None and doc is not None:
+        out["deser"] = _deser(run, doc, cd, x)
+    if run is not None and case.get("doc2"):
         d2 = wire_to_py(identity_doc(out["inst_canon"]))
         out["doc2"] = identity_doc(out["inst_canon"])
-        out["deser2"] = _deser(des_w, d2, cd, x)
+        out["deser2"] = _deser(run, d2, cd, x)
     return out
 
 
-def _deser(des_w, doc, cd, x):
+def _deser(run, doc, cd, x):
     try:
-        y = des_w.deserialize(doc)
+        y = run(doc)
     except Exception as e:
         return {"err": err_name(e), "msg": str(e)[:300]}
-    return {"ok": dump_inst(y, cd, True), "equal": bool(y == x)}
+    out = {"ok": dump_inst(y, cd, True), "equal": bool(y == x)}
+    extras = find_extras(y, cd)
+    if extras:
+        out["extras"] = extras
+    return out
 
 
 # ------------------------------------------------------------------ driver line
@@ -576,6 +646,9 @@ def tags(case, impl, model):
          f"camel={case['camel']}", f"strict={case['strict']}",
          "explicit=" + ("none" if case["explicit"] is None else "yes")]
     t += ["mapper:" + k for k in sorted(mapper_kinds(case["cls"], set()))]
+    t.append("entry=" + case.get("entry", "Deserializer"))
+    if closed(case["cls"]):
+        t.append("closed-class-in-tree")
     pre = case.get("pre") or []
     t.append(f"history={len(pre)}")
     top = [c for c in pre if c["target"] == case["cls"]["name"]]
@@ -638,9 +711,11 @@ def correspondence(cd, impl, model):
         return ("serialized document differs: real " + json.dumps(real_doc)[:400] + " model "
                 + json.dumps(model_doc)[:400])
     for key in ("deser", "deser2"):
-        if key not in impl:
+        if key not in impl or closed(cd):
             continue
         r, m = impl[key], model.get(key)
+        if "extras" in r:
+            return f"{key}: real instance has undeclared attributes {r['extras']} (undefined keys kept)"
         if m is None:
             return f"model has no {key}"
         if ("ok" in r) != ("ok" in m):
